@@ -992,8 +992,14 @@ def run(ctx: vlib.Ctx):
         "the frame oracle",
     ]
     ctx.trusted += [
-        "C15 format family / lazy compilation / Config options other than serialize_by_alias are outside the Coq model: covered by "
-        "the oracles only (format libraries msgpack, orjson, json, yaml, tomli_w/tomllib are oracles)",
+        "C15 format part of the model (C15Format.v): ONE document function and ONE parser per format are parameters of the "
+        "theorems (the libraries msgpack, orjson, json, yaml, tomli_w/tomllib are oracles; the correspondence only models what they "
+        "reject: TOML needs a table and has no null) and documents are compared after parsing them back (key order ignored for "
+        "YAML/TOML, TOML date literals as ISO text); Dialect.merge's OPTION part is the translated kernel K2 (+K13), its STRATEGY part "
+        "(pass_through for bytes/date/..., user strategies) and the options namedtuple_as_dict/omit_default/no_copy_collections are "
+        "outside the model - format tie restricted to union-free types, strategies covered by the format oracle only",
+        "lazy compilation, module identity, PEP 563 and the Config options other than serialize_by_alias / omit_none are outside the "
+        "Coq model (invisible there): covered by the correspondence (as invariance) and the oracles",
         "typing interns parametrised generics by equal arguments (List[Union[A,B]] is List[Union[B,A]]): modules in which the "
         "type objects do not have the generated member order are dropped (stated predicate module_matches_scenario)",
     ]
@@ -1182,6 +1188,7 @@ def run(ctx: vlib.Ctx):
 
     # ---------------- (M) correspondence of the format part of the model (C15Format.v over the K2/K13 kernels)
     ctx.theorems("props/C15_formats.vo", FORMAT_THEOREMS, kernels=["K2", "K13"])
+    ctx.coqchk(["VerifProps.C15_entrypoints", "VerifProps.C15_formats"])
     from harness import c15fmt_tie
     tied_for_formats = [(sc, vals) for (sc, vals, src, mod) in loaded if not sc.wide and "~" not in str(sc.sid) and not str(sc.sid).startswith("fx")]
     c15fmt_tie.run_format_tie(ctx, tied_for_formats, ctx.budget(10, 60))
